@@ -157,3 +157,21 @@ async fn handle(
         hub.unsubscribe(&id).await;
     }
 }
+
+/// Verification hook (feature `verif-hooks`, off by default): lets a simulator
+/// run the real per-connection task on one end of a socket pair it owns.
+#[cfg(all(unix, feature = "verif-hooks"))]
+pub mod verif_hooks {
+    use super::*;
+
+    #[allow(dead_code)] // the binary target compiles this module too and never calls it
+    pub async fn handle_connection(
+        stream: UnixStream,
+        config: DynamicConfig,
+        stats: SharedStats,
+        critical_window: CriticalWindow,
+        hub: SubscriptionHub,
+    ) {
+        handle(stream, config, stats, critical_window, hub).await
+    }
+}
